@@ -228,6 +228,10 @@ Definition with_msgs (ob : obj) (m : list msg) (nrec : N) : obj :=
 Definition with_link (ob : obj) (nl : N) : obj :=
   mkObj (o_id ob) (o_kind ob) (o_msgs ob) (o_poff ob) (o_rank ob) (o_nent ob + 1) (o_hused ob + (nl + 1)) (o_nrec ob).
 
+(* replace the message list of the object currently recorded under x *)
+Definition set_msgs (l : list obj) (x : oid) (m : list msg) : list obj :=
+  match get_obj l x with Some cur => set_obj l (with_msgs cur m (o_nrec cur)) | None => l end.
+
 Definition hdr_kind (ob : obj) : kind := match o_kind ob with OLink => KLinkHdr | _ => KHeader end.
 Definition has_type (t : N) (m : list msg) : bool := existsb (fun p => fst p =? t) m.
 Definition count_type (t : N) (m : list msg) : N := N.of_nat (List.length (filter (fun p => fst p =? t) m)).
@@ -500,8 +504,9 @@ Definition compile (s : state) (o : op) : compiled :=
                   let '(lc, lok, upd) := link_to_parent s p nl dup in
                   (* the reference-count message stays in the target header when the link fails:
                      the roll-back rewrites the header with the message still present *)
-                  if lok then ([w] ++ lc, true, fun l => upd (set_obj l (with_msgs tb m' (o_nrec tb))))
-                  else ([w; w], false, fun l => set_obj l (with_msgs tb m' (o_nrec tb)))
+                  (* (the target may be the parent group itself: both updates apply to the current record) *)
+                  if lok then ([w] ++ lc, true, fun l => set_msgs (upd l) tgt m')
+                  else ([w; w], false, fun l => set_msgs l tgt m')
               end
           end
       end
